@@ -58,6 +58,33 @@ def container_of(c):
     return None
 
 
+def order_erased(f, it):
+    """the iteration's order cannot be observed: the items are collected and the collection is sorted before
+    the function returns (sort*/sort_unstable* on the collected vector dominates every return)"""
+    # follow the iterator chain forward: values originating from the iteration call
+    sorts = [c for c in f.calls if c.p.rsplit("::", 1)[-1].startswith(("sort", "sort_unstable"))]
+    for s_ in sorts:
+        at = f.origins(s_.args[0])
+        hit = False
+        work = list(at)
+        seen = set()
+        while work:
+            a = work.pop()
+            if a in seen:
+                continue
+            seen.add(a)
+            if a[0] == "call":
+                if a[2] == it.bb:
+                    hit = True
+                    break
+                c = f.call_at(a[2])
+                if c is not None and c.args:
+                    work.extend(f.origins(c.args[0]))
+        if hit and all(f.dominates(s_.bb, r) for r in f.ret_blocks):
+            return True
+    return False
+
+
 def check_hashers(chk, prog):
     R = chk.rule("R-HASHERS", "every iteration (iter / keys / values / into_iter / drain / retain / for_each ...) over a std, hashbrown or dashmap hash map/set in workspace library code "
                  "uses BuildHasherDefault<FxHasher> (fixed seed), or is in the frozen table with a reason; indexmap and the raw HashTable (caller-supplied hashes) are out of scope")
@@ -80,6 +107,8 @@ def check_hashers(chk, prog):
             key = f"{root}:{short}-over-{cont.rsplit('::', 1)[-1]}"
             if (root, short) in HASHER_ALLOW:
                 chk.ok(R, key, f"listed: {HASHER_ALLOW[(root, short)]}", c.loc)
+            elif order_erased(f, c):
+                chk.ok(R, key, "items are collected and sorted before the function returns: the hash order is not observable", c.loc)
             else:
                 chk.bad(R, key, f"iteration over a {cont} hashed with {hasher} (randomly seeded per process): the order of the produced items differs from run to run", c.loc)
     chk.floor(R, n, 30, "hash-container iteration sites in library code")
